@@ -5,8 +5,9 @@ import time
 
 from . import common as C
 
-ALL_LISTS = ["P1", "P2", "P3", "P4", "F1", "F2", "F3", "F4", "F5", "V1", "V2", "V3", "V4", "V5", "V6", "V7", "V8", "V9", "M1", "M2", "M3"]
-TRACKED = ["P3", "P4", "F3", "F4", "F5", "V3", "V4", "V7", "V9", "M2", "M3"]
+ALL_LISTS = ["P1", "P2", "P3", "P4", "P5", "F1", "F2", "F3", "F4", "F5", "F6", "V1", "V2", "V3", "V4", "V5", "V6", "V7", "V8", "V9", "V10",
+             "M1", "M2", "M3"]
+TRACKED = ["P3", "P4", "P5", "F3", "F4", "F5", "F6", "V3", "V4", "V7", "V9", "V10", "M2", "M3"]
 ALIGNED = ["P2", "F2", "V1", "V3", "V5", "V6", "V7", "V8", "V9", "M1"]
 VARYING = ["V1", "V2", "V3", "V4", "V5", "V6", "V7", "V8", "V9", "M1", "M2", "M3"]
 TRAIT_KINDS = ["T000", "T001", "T010", "T011", "T100", "T101", "T110", "T111"]
@@ -91,8 +92,8 @@ def spec(prop, tier):
         if q:
             primary = ["P3", "F3", "V3", "V4", "M2"]
             return hist_runs(primary, tier, depth=7) + [R(l, "AE", "hist", depth=6, junk=1) for l in TRACKED if l not in primary] + \
-                pair_runs(["F3", "V3"], ["AE", "NP"], tier, 5) + pair_runs(["P3", "F4", "V7", "M2", "M3"], ["NP"], tier, 4) + \
-                elem_runs(["F3", "V3"], ["NP"], tier, 3) + elem_runs(["F4", "M2", "V7"], ["NP"], tier, 2)
+                pair_runs(["F3", "V3"], ["AE", "NP"], tier, 5) + pair_runs(["P3", "P5", "F4", "F6", "V7", "V10", "M2", "M3"], ["NP"], tier, 4) + \
+                elem_runs(["F3", "V3"], ["NP"], tier, 3) + elem_runs(["P5", "F4", "F6", "V10", "M2", "V7"], ["NP"], tier, 2)
         return hist_runs(TRACKED, tier, allocs=("AE",), nmax=4, cmax=3, bmax=6, depth=6) + \
             pair_runs(TRACKED, ["AE", "NP", "PP"], tier, 5) + elem_runs(TRACKED, ["AE", "NP", "PP"], tier, 3)
     if prop == "C07":
@@ -104,7 +105,9 @@ def spec(prop, tier):
     if prop == "C08":
         if q:
             return pair_runs(["F3", "V3"], ["T000", "T111", "T010", "T100", "T001", "NPS"], tier, 5) + \
-                elem_runs(["F3", "V3"], ["T000", "T111", "T010", "T100"], tier, 3)
+                elem_runs(["F3", "V3"], ["T111", "T010", "T100"], tier, 3) + \
+                [r for r in elem_runs(["F3", "V3"], ["T000"], tier, 4) if r["arena1"] == 1] + \
+                [r for r in elem_runs(["F3", "V3"], ["T000"], tier, 3) if r["arena1"] == 0]
         return pair_runs(["F1", "F3", "V1", "V3", "M2"], TRAIT_KINDS + ["AE", "NPS"], tier, 4) + \
             elem_runs(["F1", "F3", "V1", "V3", "M2"], TRAIT_KINDS + ["AE", "NPS"], tier, 3)
     if prop == "C09":
@@ -128,7 +131,10 @@ def spec(prop, tier):
         return runs
     if prop == "C12":
         if q:
-            return elem_runs(["F3", "V1", "V3"], ["AE", "NP"], tier, 3) + elem_runs(["F1", "F4", "V5", "M2", "M3"], ["AE", "NP"], tier, 2)
+            return elem_runs(["F3", "V1", "V3"], ["AE"], tier, 3) + \
+                [r for r in elem_runs(["F3", "V1", "V3"], ["NP"], tier, 4) if r["arena1"] == 1] + \
+                [r for r in elem_runs(["F3", "V1", "V3"], ["NP"], tier, 3) if r["arena1"] == 0] + \
+                elem_runs(["F1", "F4", "V5", "M2", "M3"], ["AE", "NP"], tier, 2)
         return elem_runs(["F1", "F3", "F4", "V1", "V3", "V5", "M2", "M3"], ["AE", "NP", "PP"], tier, 4)
     if prop == "C17":
         lists = ["F1", "F3", "V1", "V3"]
